@@ -93,6 +93,8 @@ def _states(deep):
     out.append(('two_buses', ['A', 'B'], hs, [('disp', 'A', 'P', 'ff'), ('disp', 'B', 'X', 'ff'), ('pause',)]))
     hs = [dict(bus='A', pat='P', name='hp', prog=[('pause',), ('raise', 'ValueError')]), dict(bus='A', pat='P', name='hp2', prog=[('pause',)]), hx('A')]
     out.append(('raising', ['A'], hs, [('disp', 'A', 'P', 'ff'), ('pause',)]))
+    # a handler in mid-flight whose clean-up after cancellation takes 1 s (an async finally): stop() must not wait for it
+    out.append(('slow_cleanup', ['A'], [dict(bus='A', pat='X', name='hxA', prog=[('guarded_pause', 1.0)])], [('disp', 'A', 'X', 'ff'), ('pause',)]))
     hs = [dict(bus='A', pat='P', name='hp', prog=[('pause',)]), hx('A')]
     out.append(('timeout_pending', ['A'], hs, [('disp', 'A', 'P', 'ff', {'timeout': 0.5}), ('disp', 'A', 'X', 'ff'), ('pause',)]))
     return out
@@ -103,7 +105,7 @@ def families(tier):
     out = []
     cfg = dict(bound=4 if deep else 2, cap=30000 if deep else 1500, window=0.7, max_targets=3, horizon=25.0)
     for (sname, names, hs, pre), tmo, par in itertools.product(_states(deep), (None, 0, 0.3), (False, True)):
-        if par and sname not in ('paused', 'awaiting_child_A', 'raising'):
+        if par and sname not in ('paused', 'awaiting_child_A', 'raising', 'slow_cleanup'):
             continue
         main = list(pre) + [('stop', 'A', tmo), ('pause',)]
         for hist in ((50, None) if sname.startswith('awaiting_child') else (50,)):
